@@ -747,6 +747,79 @@ example (sh : Shared) :
    by rw [(srvRun_proj sh _ [] 3).2]; rfl⟩
 
 
+/-! ### valid UTF-8 request lines with a wide character near the front -/
+
+/-- a character outside ASCII is none of the characters the dispatch compares with. -/
+theorem ascii_ne_wide (a c : Char) (ha : a.toNat < 128) (hc : 128 ≤ c.toNat) : (a == c) = false := by
+  simp only [beq_eq_false_iff_ne, ne_eq]
+  intro e
+  subst e
+  omega
+
+/-- **wide_prefix_closed.** `handle_command` is a function of the command's CHARACTERS
+(`starts_with`, `==`, `split('/')`; no byte offset appears in it): a command with a character
+outside ASCII — 2, 3 or 4 bytes wide in UTF-8 — among its first three characters, whatever stands
+before and after it (so whichever small byte offset falls inside it), is `Err(InvalidCommand)`:
+no reply, and by totality of the function no panic. The run sends the family (one wide character
+starting at every byte offset 0..=8 of the line, of the product, of the endpoint, and at the
+powers of two up to 1024) through the real `handle_command` and the real `tcp::start_server`; a
+dispatch on a byte slice (`&command[..3]`) leaves this model at exactly those members. -/
+theorem wide_prefix_closed (H : Str → Str) (s : Server) (seqn : Nat) (pre rest : Str) (c : Char)
+    (hpre : pre.length < 3) (hc : 128 ≤ c.toNat) :
+    handleCommand H s seqn (pre ++ c :: rest) = none := by
+  have hv := ascii_ne_wide 'v' c (by decide) hc
+  have h1 := ascii_ne_wide '1' c (by decide) hc
+  have h2 := ascii_ne_wide '2' c (by decide) hc
+  have hs := ascii_ne_wide '/' c (by decide) hc
+  apply (malformed_closed H s seqn).2.2
+  · match pre, hpre with
+    | [], _ => simp [startsWith, hv]
+    | [a], _ => simp [startsWith, h1]
+    | [a, b], _ => simp [startsWith, hs]
+  · match pre, hpre with
+    | [], _ => simp [startsWith, hv]
+    | [a], _ => simp [startsWith, h2]
+    | [a, b], _ => simp [startsWith, hs]
+
+/-- **wide_request_closed_others_answered.** On the server, under any interleaving of any
+sockets' events: socket `i` sends, in any segmentation (also cut inside the character), a
+terminated line that is valid UTF-8 (`dec` succeeds) and whose trimmed text has a wide character
+among its first three characters — it is closed without a reply and nothing else happens on it;
+and any other fresh socket `j` that sends its bytes and half-closes is answered exactly what its
+own bytes are answered alone. (In `start_server` a connection task is detached: nothing it does,
+returns or panics with reaches the accept loop; a change that lets the accept loop return when one
+task fails breaks the second conjunct for every `j` accepted afterwards — the run's
+`server-stopped` clause.) -/
+theorem wide_request_closed_others_answered (sh : Shared) (evs : List (Nat × Ev)) (σ : Conns)
+    (i j : Nat) (chunksI : List (List Nat)) (restI : List Ev) (l pre post : Str) (c : Char)
+    (chunksJ : List (List Nat)) (restJ : List Ev)
+    (hfreshI : getConn σ i = .reading []) (hprojI : proj i evs = chunksI.map .data ++ restI)
+    (hlf : 10 ∈ chunksI.flatten) (hdec : sh.dec (firstLine chunksI.flatten) = some l)
+    (htrim : trim l = pre ++ c :: post) (hpre : pre.length < 3) (hc : 128 ≤ c.toNat)
+    (hfreshJ : getConn σ j = .reading []) (hprojJ : proj j evs = chunksJ.map .data ++ .eof :: restJ) :
+    outsOf i (srvRun sh σ evs).2 = [.closed] ∧
+    outsOf j (srvRun sh σ evs).2 = [connAnswer sh chunksJ.flatten] := by
+  refine ⟨?_, keeps_answering_other_clients sh evs σ j chunksJ restJ hfreshJ hprojJ⟩
+  rw [answered_at_line_end sh evs σ i chunksI restI hfreshI hprojI hlf]
+  unfold answer handleConnection
+  rw [hdec]
+  cases l with
+  | nil => rfl
+  | cons a t => simp only [htrim, wide_prefix_closed sh.H sh.s sh.seqn pre post c hpre hc]
+
+/-- hypotheses satisfiable, non-trivially: the seeded witnesses `v1é/products/wow/versions`,
+`éé`, `ab€` and a 4-byte character at the very front. -/
+example (H : Str → Str) (s : Server) (seqn : Nat) :
+    handleCommand H s seqn "v1é/products/wow/versions".toList = none ∧
+    handleCommand H s seqn "éé".toList = none ∧
+    handleCommand H s seqn "ab€".toList = none ∧
+    handleCommand H s seqn "😀v1/summary".toList = none :=
+  ⟨wide_prefix_closed H s seqn ['v', '1'] "/products/wow/versions".toList 'é' (by decide) (by decide),
+   wide_prefix_closed H s seqn [] ['é'] 'é' (by decide) (by decide),
+   wide_prefix_closed H s seqn ['a', 'b'] [] '€' (by decide) (by decide),
+   wide_prefix_closed H s seqn [] "v1/summary".toList '😀' (by decide) (by decide)⟩
+
+
 /-! ### HTTP routing table -/
 
 /-- **http_routing_table.** Every URL path (as axum's router sees it; percent-decoding and query
